@@ -23,6 +23,9 @@ RULE = ("case = one point of the complete lattice functional{rootfinder,equilibr
         "initial guess {zero, far, near, exact root, edge = residual 1.5 f_tol} x (f_tol, x_tol) pair x maxiter {generous, 1, 2, 3} x value plane; "
         "each case = one real solver call with a logging spy as the function; distinct = distinct observation "
         "(status, evaluation count, rounded residual, position of the returned tensor in the evaluation log)")
+RULE_ADDED = ("Added later: guess 'edge' / x_tol 'xfirst' boundary values, family 'const', method names in another "
+              'letter case, gd/adam transition-conformance oracle, overshooting gd / adam steps (step 3/mu, adam st'
+              'ep 5) on runs of 1-3 iterations, call-order plane in fresh interpreters.')
 ASSUMPTIONS = [
     "all tolerances and iteration limits are passed explicitly (f_tol, x_tol, f_rtol=x_rtol=inf resp. 0 for gd/adam, "
     "maxiter, alpha, step, momentum); nothing depends on a library default",
